@@ -65,19 +65,23 @@ def run(ctx):
     ctx.extra["layouts_enumerated"] = layouts
     # leg 2
     stats = []
-    chunks = ctx.pick([(60, 0, 0)], [(300, 0, 0), (300, 0, 0), (40, 6, 0), (4, 0, 2)])
-    for k, (n, big, huge) in enumerate(chunks):
+    chunks = ctx.pick([(60, 0, 0, 2)], [(300, 0, 0, 2), (300, 0, 0, 0), (40, 6, 0, 2), (4, 0, 2, 0)])
+    for k, (n, big, huge, sparse) in enumerate(chunks):
         trace = "%s/cfb_trace_%d.ndjson" % (ctx.work, k)
         rep = "%s/cfb_drive_%d.json" % (ctx.work, k)
-        ctx.cvh(["drive", "cfb", "--out", trace, "--report", rep, "--n", n, "--big", big, "--huge", huge,
+        ctx.cvh(["drive", "cfb", "--out", trace, "--report", rep, "--n", n, "--big", big, "--huge", huge, "--sparse", sparse,
                  "--seed", ctx.seed + k])
         d = json.load(open(rep))
         ctx.evaluations += d.get("evaluated", 0)
         ctx.nontrivial += d.get("nontrivial", 0)
         stats.append(d.get("stats"))
+        aborted = False
         for f in d.get("failures", []):
             f["cmd"] = None
+            aborted = aborted or f.get("key") == "abort"
             ctx.fail(f.get("key", "unexplained"), f)
+        if aborted:
+            continue    # the driver process died (calamine aborted); there is no trace to validate
         v = ctx.validate_trace("cfb", "Trace_Cfb", "Trace_Cfb.cfg", trace, timeout=ctx.pick(300, 2400),
                                xmx=ctx.pick("4g", "8g"), name="trace_cfb_%d" % k)
         if v["accepted"]:
